@@ -407,6 +407,49 @@ def thread_limit_run(tftpd, single, sb):
     return res
 
 
+def busy_worker_run(tftpd, single, sb):
+    """One endpoint keeps a worker busy for half a minute (duplicate-packets mode, a window of 30000 blocks) and sends it
+    1000 stale ACKs meanwhile; the listener must go on answering other endpoints."""
+    content = N.keyed_content("probe", 700)
+    write(os.path.join(sb["srv"], "probe.bin"), content)
+    write(os.path.join(sb["srv"], "long.bin"), N.keyed_content("long", 8 * 30000 + 3))
+    cfg = f"release/{'single' if single else 'multi'}/busy-worker"
+    res = {"cfg": cfg, "datagrams": 0, "outcome": None}
+    for attempt in range(2):
+        srv = N.Server(tftpd, sb["srv"], single=single, dup=1, logdir=sb["logs"], tag="c05-bw")
+        try:
+            srv.start()
+        except RuntimeError:
+            res["outcome"] = "not-started"
+            return res
+        s = N._sock(timeout=2.0)
+        try:
+            tr = N.Transfer()
+            s.sendto(N.enc_req(N.RRQ, "long.bin", options=[("windowsize", 30000), ("blksize", 8), ("timeout", 1)]), srv.addr)
+            k, f, peer = N.recv(s, tr)
+            if k != "OACK":
+                res["outcome"] = f"not-started ({k})"
+                return res
+            s.sendto(N.enc_ack(0), peer)
+            N.recv(s, tr)
+            for i in range(1000):
+                s.sendto(N.enc_ack(0), peer)
+                res["datagrams"] += 1
+                if i % 4 == 3:
+                    time.sleep(0.001)
+            time.sleep(0.3)
+            ok, why = N.probe(srv, "probe.bin", content, timeout=2.0)
+            if ok and srv.exit_status() is None:
+                res["outcome"] = "served"
+                return res
+            res["failure"] = {"exit_status": srv.exit_status(), "why": why, "log_tail": srv.log_tail(400)}
+        finally:
+            s.close()
+            srv.stop()
+    res["outcome"] = "violation"
+    return res
+
+
 def run(tier):
     v = C.Verdict("C05", tier, "exploration")
     flavors = ("release", "checked")
@@ -428,15 +471,23 @@ def run(tier):
         if pid_namespaces_work():
             for single in (False, True):
                 tl_jobs.append(ex.submit(thread_limit_run, ctx.bins["release"]["tftpd"], single, ctx.sandbox("c05tl")))
+        bw_jobs = [ex.submit(busy_worker_run, ctx.bins["release"]["tftpd"], single, ctx.sandbox("c05bw")) for single in (False, True)]
         results = [j.result() for j in jobs]
         tl_results = [j.result() for j in tl_jobs]
+        bw_results = [j.result() for j in bw_jobs]
+    for r in bw_results:
+        if r["outcome"] == "violation":
+            f = r["failure"]
+            v.violation(f"C05/busy-worker/{'exit' if f['exit_status'] is not None else 'wedged'}/{r['cfg'].split('/')[1]}",
+                        f"{r['cfg']}: while one worker was busy sending a window of 30000 blocks (duplicate-packets 1) and its endpoint sent 1000 stale ACKs, the server {'exited with status ' + str(f['exit_status']) if f['exit_status'] is not None else 'did not serve another endpoint'} ({f['why']}); twice on fresh servers",
+                        {"engine": "net", "config": r["cfg"], "scenario": "busy-worker", **f})
     for r in tl_results:
         if r["outcome"] == "violation":
             f = r["failure"]
             v.violation(f"C05/thread-limit/{'exit' if f['exit_status'] is not None else 'wedged'}/{r['cfg'].split('/')[1]}",
                         f"{r['cfg']}: 1000 simultaneous requests against a server that may have about 400 threads: the server {'exited with status ' + str(f['exit_status']) if f['exit_status'] is not None else 'no longer served the probe after the accepted transfers had ended'} ({f['why']}); log: {f['log_tail'][-300:]!r}",
                         {"engine": "net", "config": r["cfg"], "scenario": "thread-limit", **f})
-    total = sum(r["sent"] for r in results) + sum(r["requests"] for r in tl_results)
+    total = sum(r["sent"] for r in results) + sum(r["requests"] for r in tl_results) + sum(r["datagrams"] for r in bw_results)
     probes = sum(r["probes"] for r in results)
     labels, replies = {}, {}
     for r in results:
@@ -457,9 +508,9 @@ def run(tier):
         else:
             v.note_inconclusive(f"{r['cfg']}: {f['why']}")
     cov = {"evaluations": total, "distinct_nontrivial": len({(r['cfg'], l) for r in results for l in r['labels']}) + probes,
-           "rule": "hostile datagrams (random bytes 0..1500 and up to 65507, opcode prefixes, truncations / NUL removal / byte mutations / splices of valid packets of all six kinds, valid requests with option values at 0,1,7,8,65464,65465,2^16,2^31,2^32,2^36,2^40,2^63,2^64-1,2^64,-1,+5,007,1e3,'',abc in every case spelling, alone and combined) are sent from 8 source sockets to one long-lived server per (build, port mode, read-only) in a seeded order; after every 64 datagrams a liveness probe (canonical RRQ must return the exact 700-byte file, from the listening port in single-port mode) and the process exit status are checked; a failing batch is bisected on fresh servers. Transfers started by hostile requests are cancelled with ERROR. Finally the endpoint of a live transfer sends 12000 well-formed datagrams that are no answer (DATA after the OACK, OACK after DATA 1, ACK 7 after a WRQ, a mix; 300 repeated requests) without a pause, then a probe. Thread limit: a server in a PID namespace with pid_max 400 receives 1000 simultaneous requests; it must stay alive and serve the probe once the accepted transfers have given up. distinct_nontrivial = probes answered + distinct (configuration, datagram class) pairs.",
+           "rule": "hostile datagrams (random bytes 0..1500 and up to 65507, opcode prefixes, truncations / NUL removal / byte mutations / splices of valid packets of all six kinds, valid requests with option values at 0,1,7,8,65464,65465,2^16,2^31,2^32,2^36,2^40,2^63,2^64-1,2^64,-1,+5,007,1e3,'',abc in every case spelling, alone and combined) are sent from 8 source sockets to one long-lived server per (build, port mode, read-only) in a seeded order; after every 64 datagrams a liveness probe (canonical RRQ must return the exact 700-byte file, from the listening port in single-port mode) and the process exit status are checked; a failing batch is bisected on fresh servers. Transfers started by hostile requests are cancelled with ERROR. Finally the endpoint of a live transfer sends 12000 well-formed datagrams that are no answer (DATA after the OACK, OACK after DATA 1, ACK 7 after a WRQ, a mix; 300 repeated requests) without a pause, then a probe. Busy worker: a worker kept sending for half a minute (duplicate-packets 1, window of 30000 blocks) receives 1000 stale ACKs; another endpoint must be served meanwhile. Thread limit: a server in a PID namespace with pid_max 400 receives 1000 simultaneous requests; it must stay alive and serve the probe once the accepted transfers have given up. distinct_nontrivial = probes answered + distinct (configuration, datagram class) pairs.",
            "samples": [{"config": r["cfg"], "datagrams": r["sent"], "probes_passed": r["probes"], "classes": r["labels"]} for r in results[:3]],
-           "exhaustive": False, "datagram_classes": labels, "replies_seen": replies, "probes": probes, "servers": len(results), "thread_limit_scenario": [{k: r.get(k) for k in ("cfg", "requests", "outcome", "refused_for_lack_of_threads")} for r in tl_results] or "skipped: PID namespaces with their own pid_max are not available here", "source_endpoints": sum(r.get("sources", 0) for r in results)}
+           "exhaustive": False, "datagram_classes": labels, "replies_seen": replies, "probes": probes, "servers": len(results), "busy_worker_scenario": [{k: r.get(k) for k in ("cfg", "datagrams", "outcome")} for r in bw_results], "thread_limit_scenario": [{k: r.get(k) for k in ("cfg", "requests", "outcome", "refused_for_lack_of_threads")} for r in tl_results] or "skipped: PID namespaces with their own pid_max are not available here", "source_endpoints": sum(r.get("sources", 0) for r in results)}
     return v.finish(cov, ["the thread-limit scenario bounds threads only; exhaustion of memory or descriptors by thousands of simultaneous accepted transfers is not driven (workers are cancelled)", "server-internal thread schedules are sampled, not controlled"])
 
 
